@@ -197,7 +197,9 @@ namespace cnl {
             template<typename Rhs>
             [[nodiscard]] constexpr auto operator()(Rhs const& rhs) const
             {
-                return has_most_negative_number<Rhs>::value && rhs < -std::numeric_limits<Rhs>::max();
+                // negation is performed on the promoted operand, e.g. -std::int8_t{-128} is 128
+                using result = op_result<minus_op, Rhs>;
+                return has_most_negative_number<result>::value && rhs < -std::numeric_limits<result>::max();
             }
         };
 
@@ -206,7 +208,8 @@ namespace cnl {
             template<typename Rhs>
             [[nodiscard]] constexpr auto operator()(Rhs const& rhs) const
             {
-                return !numbers::signedness_v<Rhs> && rhs;
+                // negation is performed on the promoted operand, e.g. -std::uint8_t{1} is -1
+                return !numbers::signedness_v<op_result<minus_op, Rhs>> && rhs;
             }
         };
 #if defined(_MSC_VER)
